@@ -16,9 +16,13 @@ def block_fn(M, module, other, extra):
     """returns f(shell) -> normalised block array with the tested shell on the FIRST index"""
     m = M.mods
 
+    def dims(*shells):
+        return tuple(x for sh in shells for x in (sh.coeffs.shape[1], len(sh.angmom_components_cart)))
+
     def two(cls, **kw):
         def f(sh):
             b = cls.construct_array_contraction(sh, other, **kw)
+            M.shaped("c13/%s/block" % module, b[(Ellipsis,) + (0,) * (b.ndim - 4)] if b.ndim > 4 else b, dims(sh, other))
             b = b * sh.norm_cont.reshape(*b.shape[:2], *[1] * (b.ndim - 2))
             return b * other.norm_cont.reshape(1, 1, *b.shape[2:4], *[1] * (b.ndim - 4))
 
@@ -56,7 +60,7 @@ def block_fn(M, module, other, extra):
         cls = m["gbasis.integrals.electron_repulsion"].ElectronRepulsionIntegral
 
         def f(sh):
-            b = cls.construct_array_contraction(sh, other, other, other)
+            b = M.shaped("c13/eri/block", cls.construct_array_contraction(sh, other, other, other), dims(sh, other, other, other))
             b = b * sh.norm_cont.reshape(*b.shape[:2], 1, 1, 1, 1, 1, 1)
             return b
 
@@ -67,7 +71,7 @@ def block_fn(M, module, other, extra):
         third = extra["third"]
 
         def f(sh):
-            b = cls.construct_array_contraction(other, sh, third, other)
+            b = M.shaped("c13/eri_middle/block", cls.construct_array_contraction(other, sh, third, other), dims(other, sh, third, other))
             b = b * sh.norm_cont.reshape(1, 1, *b.shape[2:4], 1, 1, 1, 1)
             b = b * third.norm_cont.reshape(1, 1, 1, 1, *b.shape[4:6], 1, 1)
             return np.moveaxis(b, (2, 3), (0, 1))  # tested shell's (segment, component) axes first
